@@ -101,6 +101,98 @@ def rate_exprs(ctx, net, tag):
     return {st["i"]: st["expr"] for st in creader.read_rates((out / "src/naunet_rates.cpp").read_text())}
 
 
+RERENDER = """
+import logging, os, sys
+sys.path.insert(0, {root!r})
+logging.disable(logging.CRITICAL)
+from cleo.application import Application
+from cleo.testers.command_tester import CommandTester
+from naunet.console.commands.render import RenderCommand
+app = Application()
+app.add(RenderCommand())
+sys.exit(CommandTester(app.find("render")).execute("--force"))
+"""
+
+
+def export_cases(ctx, rng, n, tid0):
+    """gas-grain networks with user-supplied binding energies / yields: export, then re-render the exported project in a fresh process"""
+    import os
+    import subprocess
+    from common import REPO, quiet
+    from naunet import chemistrydata
+    from naunet.network import Network
+    from naunet.reactions.reaction import Reaction
+    from naunet.reactiontype import ReactionType as RT
+    from naunet.species import Species
+    out = []
+    ices = ["#CO", "#H2O", "#H", "#CH4", "#NH3"]
+    for k in range(n):
+        Species.reset()
+        chemistrydata.user_binding_energy.clear()
+        chemistrydata.user_photon_yield.clear()
+        chosen = rng.sample(ices, rng.randint(2, 4))
+        eb = {s: float(rng.choice([650, 1300, 2750, 5600, 4321])) for s in rng.sample(chosen, rng.randint(1, len(chosen)))}
+        yl = {s: rng.choice([2.7e-3, 1.0e-4]) for s in rng.sample(chosen, rng.randint(0, 2))}
+        chemistrydata.update_binding_energy(dict(eb))
+        chemistrydata.update_photon_yield(dict(yl))
+        reacs, i = [], 0
+        for s in chosen:
+            for r_, p_, ty, a in (([s[1:]], [s], RT.GRAIN_FREEZE, 1.0), ([s], [s[1:]], RT.GRAIN_DESORB_THERMAL, 1.0)):
+                i += 1
+                reacs.append(Reaction(r_, p_, -1.0, -1.0, a, 0.0, 0.0, ty, i))
+        if "#CO" in chosen and "#H" in chosen:
+            i += 1
+            reacs.append(Reaction(["#CO", "#H"], ["#HCO"], -1.0, -1.0, 2500.0, 0.0, 0.0, RT.SURFACE_TWOBODY, i))
+        reacs.append(Reaction(["H", "CO"], ["HCO"], 10.0, 300.0, 1.0e-15, 0.0, 0.0, RT.GAS_TWOBODY, i + 1))
+        d = ctx.sub("exp") / str(k)
+        d.mkdir()
+        ev = {"act": "Export", "exported": True, "refused": False, "same": True, "diff": [], "eb": eb, "yields": yl, "ices": chosen}
+        try:
+            with quiet():
+                net = Network(reacs, grain_model="hh93")
+                rate_exprs(ctx, net, f"exp_{k}")        # the direct rendering must work at all (a dust model may not serve these reaction classes)
+        except Exception:   # noqa
+            continue
+        try:
+            with quiet():
+                net.export("proj", prefix=d, overwrite=True)
+        except Exception as e:   # noqa
+            ev["exported"], ev["err"] = False, f"{type(e).__name__}: {str(e)[:120]}"
+            out.append({"tid": tid0 + len(out) + 1, "net": [], "pr": [], "ev": [ev], "origin": "export"})
+            continue
+        proj = d / "proj"
+        def snapshot():
+            rates = {st["i"]: st["expr"] for st in creader.read_rates((proj / "src/naunet_rates.cpp").read_text())}
+            consts = dict(re.findall(r"\b(?:double|realtype)\s+(\w+)\s*=\s*([^;{]+);", creader.strip_comments((proj / "src/naunet_constants.cpp").read_text())))
+            return rates, consts
+        before = snapshot()
+        pr = subprocess.run(["/venv/bin/python", "-c", RERENDER.format(root=str(REPO))], cwd=proj, capture_output=True, text=True, timeout=600,
+                            env=dict(os.environ, PYTHONPATH=str(REPO)))
+        if pr.returncode != 0:
+            ev["refused"], ev["err"] = True, (pr.stderr or pr.stdout)[-200:]
+        else:
+            after = snapshot()
+            diff = []
+            for i2 in sorted(set(before[0]) | set(after[0])):
+                if i2 not in before[0] or i2 not in after[0] or same_value(before[0][i2], after[0][i2]) is False:
+                    diff.append(f"k[{i2}]: exported {before[0].get(i2, '-')[:110]!r}, re-rendered {after[0].get(i2, '-')[:110]!r}")
+            for c2 in sorted(set(before[1]) | set(after[1])):
+                a_, b_ = before[1].get(c2), after[1].get(c2)
+                try:
+                    eq = a_ is not None and b_ is not None and float(a_) == float(b_)
+                except ValueError:
+                    eq = a_ is not None and b_ is not None and a_.split() == b_.split()
+                if not eq:
+                    diff.append(f"{c2}: exported {a_}, re-rendered {b_}")
+            ev["diff"] = diff[:6]
+            ev["same"] = not diff
+        out.append({"tid": tid0 + len(out) + 1, "net": [], "pr": [], "ev": [ev], "origin": "export"})
+    Species.reset()
+    chemistrydata.user_binding_energy.clear()
+    chemistrydata.user_photon_yield.clear()
+    return out
+
+
 def gas_table_cases():
     """one reaction per (format, gas-phase code)"""
     base = {"r": ["CO", "He+"], "p": ["C+", "O", "He"], "a": 2.5e-10, "b": -0.5, "c": 12.5, "tmin": 10.0, "tmax": 41000.0, "idx": 1}
@@ -167,6 +259,9 @@ def main(ctx: Ctx) -> int:
         reacs, codes = [], []
         for _ in range(rng.randint(1, 6)):
             rec = F.gen_record(rng, "naunet")
+            if rng.random() < 0.3:       # names wider than the 12-character columns of the exchange format
+                side = rec["r"] if rng.random() < 0.5 or not rec["p"] else rec["p"]
+                side[rng.randrange(len(side))] = rng.choice(["CH3CH2CH2CH2OH", "CH3CH2CH2CH2OH2+", "HCOOCH2CH2CH3", "CH3CH2CH2CH2O"])
             ty = rng.choice([100, 101, 102, 110, 111, 120])
             reacs.append(Reaction(rec["r"], rec["p"], temp_min=rec["tmin"], temp_max=rec["tmax"], alpha=rec["a"], beta=rec["b"], gamma=rec["c"],
                                   reaction_type=ReactionType(ty), idxfromfile=rng.choice([-1, 3, 77777])))
@@ -266,6 +361,9 @@ def main(ctx: Ctx) -> int:
                            "same_law": bool(sv) if sv is not None else True, "direct": direct.get(i, "")[:120],
                            "rerendered": "" if refused else rerend.get(i, "")[:120], "err": rerr})
         traces.append({"tid": ti + 1, "net": header, "pr": [[k, v] for k, v in pr.items()], "ev": ev, "origin": origin})
+    xt = export_cases(ctx, rng, 3 if ctx.quick else 40, len(traces))
+    cov["exported_projects_rerendered_in_a_fresh_process"] = len(xt)
+    traces += xt
     v = validate_traces(ctx, "Trace_RoundTrip.tla", "Trace_RoundTrip.cfg", [{k: t[k] for k in ("tid", "net", "pr", "ev")} for t in traces], "rt", chunk=800)
     cov["traces_validated_against_impl"] = len(traces)
     cov["traces_accepted"] = v["accepted"]
@@ -277,6 +375,10 @@ def main(ctx: Ctx) -> int:
         tr = by[tid]
         at = max(1, min(rj["at"], len(tr["ev"])))
         e = tr["ev"][at - 1]
+        if e["act"] == "Export":
+            ctx.violation(f"C18|{clause}|export", f"exported gas-grain project (binding energies {e.get('eb')}, yields {e.get('yields')}): {e.get('err', '')} differs in "
+                          f"{e.get('diff')}", {"event": e, "clauses": rj["clauses"]})
+            continue
         feat = f"fmt={e['fmt']},code={e['code']}" if e["act"] == "Rerender" else f"step={e['act']},origin={tr['origin'].split()[0]}"
         if e["act"] == "Read1" and "nrecog" in e.get("err", "") and any(n.startswith("G") and n[1:2].isupper() and not n.startswith("GRAIN")
                                                                          for h in tr["net"] for n in h["r"] + h["p"]):
